@@ -662,6 +662,10 @@ func c09ValidDocs(t *refcodec.Tx) map[string][]any {
 	}
 }
 
+// c09Vocabulary: the keys either JSON dialect knows, for any kind of object
+var c09Vocabulary = []string{"lockingScript", "scriptPubKey", "satoshis", "value", "n", "unlockingScript", "scriptSig", "txid", "vout", "vin", "inputs", "outputs",
+	"hex", "sequence", "amount", "version", "lockTime", "locktime", "asm", "type", "hash", "size"}
+
 // mutations applied at every node of a valid document
 var c09Mutations = []struct {
 	class string
@@ -1071,6 +1075,45 @@ func init() {
 							jd(c, &c09Doc{Entry: e.name, Doc: jrender(jedit(d, path, append(append(jarr{}, a...), jlit("null")), false)), Class: "null:appended-to-array"})
 							jd(c, &c09Doc{Entry: e.name, Doc: jrender(jedit(d, path, append(jarr{jlit("null")}, a...), false)), Class: "null:prepended-to-array"})
 						}
+					}
+					// keys of the other dialect (and of other object kinds) added to every object, with empty
+					// spellings; for small objects also together with an own key emptied
+					foreign := func(path []int) {
+						o, ok := jat(d, path).(jobj)
+						if !ok {
+							return
+						}
+						put := func(x jobj, class string) {
+							var nd any = x
+							if len(path) > 0 {
+								nd = jedit(d, path, x, false)
+							}
+							jd(c, &c09Doc{Entry: e.name, Doc: jrender(nd), Class: class})
+						}
+						empties := []any{jlit("null"), "", jobj{}, jarr{}, jlit("0")}
+						for _, k := range c09Vocabulary {
+							for _, v := range empties {
+								put(append(jobj{{k, v}}, o...), "foreign-key")
+							}
+						}
+						if len(o) > 5 {
+							return
+						}
+						for own := range o {
+							for _, ov := range empties[:2] {
+								x := append(jobj{}, o...)
+								x[own] = jkv{o[own].k, ov}
+								for _, k := range c09Vocabulary {
+									for _, v := range empties[:2] {
+										put(append(append(jobj{}, x...), jkv{k, v}), "foreign-key:own-key-emptied")
+									}
+								}
+							}
+						}
+					}
+					foreign(nil)
+					for _, path := range paths {
+						foreign(path)
 					}
 					// the root itself
 					for _, m := range c09Mutations {
